@@ -6,7 +6,7 @@
 # /verif/seeded/<Cxx><v>/ {patch.diff, demo_test.go, NOTES.md, meta.json}.
 export GOFLAGS=-mod=mod GOPROXY=off GOSUMDB=off GOTOOLCHAIN=local
 P="$1"; V="$2"; shift 2
-SRC="/tmp/seed/out/$P/$V"
+SRC="${SEEDROOT:-/tmp/seed/out}/$P/$V"
 PATCH="$SRC/patch.diff"; REBASED=false
 [ -f "$SRC/patch.rebased.diff" ] && { PATCH="$SRC/patch.rebased.diff"; REBASED=true; }
 WT="$(mktemp -d /tmp/seedwt-XXXXXX)"; rmdir "$WT"
